@@ -298,6 +298,16 @@ def run_case(case, ctx):
                 pass
             for k in assign['order']:
                 setattr(gen, k, opts[k])
+        elif kind in ('min', 'max') and (case['n'] + 2 * case['order']) % 4 == 1:
+            # the documented positional signature (base_step, step_ratio, num_steps, step_nom, offset, num_extrap, use_exact_steps,
+            # check_num_steps, scale), every position filled (with the documented default where the case gives no value)
+            ctx.count('generator_built_positionally')
+            dflt = (dict(base_step=None, step_ratio=None, num_steps=None, step_nom=None, offset=0, num_extrap=0, use_exact_steps=True,
+                         check_num_steps=True, scale=None) if kind == 'min' else
+                    dict(base_step=2.0, step_ratio=None, num_steps=15, step_nom=None, offset=0, num_extrap=9, use_exact_steps=False,
+                         check_num_steps=True, scale=500))
+            extra = {k: v for k, v in opts_lib.items() if k not in dflt}
+            gen = cls(*[opts_lib.get(k, dflt[k]) for k in dflt], **extra)
         else:
             gen = cls(**opts_lib)
         hist = case.get('history')
